@@ -134,7 +134,6 @@ class ProcessExecutor:
         futures_to_start = list(self._pending_future_to_thunk.keys())[:start_count]
         for future in futures_to_start:
             thunk = self._pending_future_to_thunk[future]
-            del self._pending_future_to_thunk[future]
             process = self.mp_context.Process(
                 target=_subprocess_target,
                 kwargs=dict(
@@ -143,7 +142,10 @@ class ProcessExecutor:
                     result_queue=self._result_queue,
                 ),
             )
+            # Track the future as running before it stops being pending,
+            # so that it is never untracked if we are interrupted here.
             self._running_id_to_future_and_process[future.id] = (future, process)
+            del self._pending_future_to_thunk[future]
             process.start()
 
     def submit(self, fn: Callable, /, *args, **kwargs) -> Future:
